@@ -17,7 +17,7 @@ static const char *enc_name [E_N] = { "pcm_s8", "pcm_u8", "pcm_16", "pcm_24", "p
 static const int end_fmt [2] = { SF_ENDIAN_LITTLE, SF_ENDIAN_BIG } ;
 static const char *end_name [2] = { "le", "be" } ;
 
-static MemDev dev ;
+MemDev dev ;
 
 /* ------------------------------------------------------------------ raw byte helpers */
 
@@ -533,5 +533,3 @@ void harness_run (void)
 	else if (! strcmp (vl_opts.prop, "C20")) run_c20 () ;
 	else { fprintf (stderr, "h_conv: unknown property %s\n", vl_opts.prop) ; exit (3) ; }
 }
-
-void run_c20 (void) { }
